@@ -24,7 +24,7 @@ AlphaQ == {0, 1, 255}
 Pieces == UNION {[1..n -> ALPHA] : n \in 0..2}
 
 Init == /\ CInit
-        /\ IF MODE = "pairs" THEN c \in CSET /\ b \in BSET
+        /\ IF MODE \in {"pairs", "burst"} THEN c \in CSET /\ b \in BSET
            ELSE c = 0 /\ b = 0
         /\ hist = <<>>
 
@@ -63,6 +63,22 @@ ASSUME TabLinear
 \* register through zero bytes never reaches zero, and a non-zero pattern of <= 16 bits spread
 \* over at most 3 consecutive bytes (any alignment) fed from state 0 leaves a non-zero register.
 ZeroStepInjective == (c # 0) => Step(c, 0) # 0
+
+(* Burst lemma for C07.  A burst of width w <= 16 starting at bit offset o of a byte is a 24-bit
+   pattern p * 2^o with p odd (first bit set), p < 2^w, and - for width exactly w - bit w-1 set.
+   MODE "burst": one initial state per (p, o) with c = p (all odd 16-bit patterns cover every
+   width 1..16) and b = o.  The three bytes are fed LSB-first as the reflected CRC consumes them. *)
+BurstBytes(p, o) == LET v == p * (2 ^ o) IN <<v % 256, (v \div 256) % 256, (v \div 65536) % 256>>
+BurstDetected == (MODE = "burst") => Crc(BurstBytes(c, b)) # 0
+\* linearity in the data for equal lengths: CRC(x xor e) = CRC(x) xor CRC(e) - so a burst e is
+\* detected whatever the data are, and trailing zero bytes cannot cancel it (ZeroStepInjective)
+XorLinear3 == (MODE = "burst") =>
+   \A x \in {<<0, 0, 0>>, <<1, 2, 3>>, <<255, 255, 255>>, <<170, 85, 7>>} :
+      LET e == BurstBytes(c, b) IN
+      Crc([i \in 1..3 |-> x[i] ^^ e[i]]) = Crc(x) ^^ Crc(e)
+OddPatterns == {x \in 0..65535 : x % 2 = 1}
+Offsets == 0..7
+ShardOff == {Shard % 8}
 
 ExportPost == JsonSerialize(IOEnv.CRC_TAB_OUT, [tab |-> [i \in 1..256 |-> Tab[i - 1]]])
 ====================================================================================
